@@ -12,7 +12,7 @@
   abstract packaging.version.Version (A-PACKAGING: a total order with a
   .major), operator table checked entry by entry.
 """
-from pyvc.api import (proof, bounded, load, model, blank, fresh_int,
+from pyvc.api import (proof, bounded, load, model, blank, tier, fresh_int,
                       fresh_bool, fresh_str, pick, assume, check, implies,
                       conj, disj, neg, rng)
 
@@ -38,7 +38,8 @@ def horner(t):
        assumes=['A-STDLIB-INT: str(n) is an injective rendering'])
 def radix_1000_round_trip():
     V = load(VU)
-    n = pick('length', [1, 2, 3, 4, 5, 6])
+    n = pick('length', [1, 2, 3, 4, 5, 6] if tier() == 'quick'
+             else [1, 2, 3, 4, 5, 6, 7, 8])
     t = components(n)
     i = V.convert_version_to_int(t)
     check('radix/int-is-horner-value', i == horner(t))
